@@ -119,7 +119,7 @@ MUTANTS += [
     ("density_only_next_flagged", Q, "                flag_arr[:-1][is_fail == True] = QartodFlags.FAIL  # noqa:E712- Previous value\n", "", ["C13"]),
     ("density_suspect_le", Q, "is_suspect = delta < suspect_threshold", "is_suspect = delta <= suspect_threshold", ["C13"]),
     ("density_no_sign", Q, "delta = np.sign(np.diff(zinp)) * np.diff(inp)", "delta = np.diff(inp)", ["C13"]),
-    ("density_missing_next_dropped", Q, "    flag_arr[1:][is_missing[:-1]] = QartodFlags.MISSING\n", "", ["C13", "C02"]),
+    ("density_missing_next_dropped", Q, "    flag_arr[1:][is_missing[:-1]] = QartodFlags.MISSING\n", "", ["C13"]),
     ("pressure_flag_index", R, "flag_idx = np.where(delta <= 0)[0] + 1", "flag_idx = np.where(delta <= 0)[0]", ["C13"]),
     ("pressure_lt", R, "flag_idx = np.where(delta <= 0)[0] + 1", "flag_idx = np.where(delta < 0)[0] + 1", ["C13"]),
     ("pressure_no_flip", R, "    if sign < 0:\n        delta = sign * delta", "    if sign < 0:\n        delta = delta", ["C13"]),
@@ -156,4 +156,14 @@ MUTANTS += [
     ("c01_density_single_shape", Q, "        flag_arr[0] = QartodFlags.UNKNOWN\n        return flag_arr\n", "        flag_arr[0] = QartodFlags.UNKNOWN\n        return flag_arr[0]\n", ["C01"]),
     ("c01_roc_inplace_abs", Q, "        inp = np.ma.masked_invalid(np.array(inp).astype(np.float64))\n\n    # Save original shape\n    original_shape = inp.shape\n    inp = inp.flatten()\n\n    # Start with everything as passing (1)\n    flag_arr = np.ma.ones(inp.size, dtype=\"uint8\")\n\n    # calculate rate of change",
      "        inp = np.ma.masked_invalid(np.asarray(inp, dtype=np.float64), copy=False)\n\n    # Save original shape\n    original_shape = inp.shape\n    inp = inp.ravel()\n    np.abs(inp.data, out=inp.data)\n\n    # Start with everything as passing (1)\n    flag_arr = np.ma.ones(inp.size, dtype=\"uint8\")\n\n    # calculate rate of change", ["C01"]),
+]
+MUTANTS += [
+    ("c02_roc_missing_dropped", Q, "    with np.errstate(invalid=\"ignore\"):\n        flag_arr[roc > threshold] = QartodFlags.SUSPECT\n\n    # If the value is masked set the flag to MISSING\n    flag_arr[inp.mask] = QartodFlags.MISSING", "    with np.errstate(invalid=\"ignore\"):\n        flag_arr[roc > threshold] = QartodFlags.SUSPECT", ["C02", "C10"]),
+    ("c02_speed_dist_mask_dropped", R, "    flag_arr[dist.mask] = QartodFlags.MISSING\n", "", ["C10"]),
+    ("c02_valid_missing_before_bounds", A, "    # If the value is masked or nan set the flag to MISSING\n    flag_arr[inp.mask] = QartodFlags.MISSING\n\n    return flag_arr.reshape(original_shape)", "    return flag_arr.reshape(original_shape)", ["C02", "C03"]),
+    ("c02_attenuated_missing_before_fail", Q, "    flag_arr[check_val < fail_threshold] = QartodFlags.FAIL\n    flag_arr[inp.mask] = QartodFlags.MISSING", "    flag_arr[inp.mask] = QartodFlags.MISSING\n    flag_arr[check_val < fail_threshold] = QartodFlags.FAIL", ["C02", "C12"]),
+    ("c02_spike_missing_only_own", Q, "    flag_arr[diff.mask] = QartodFlags.MISSING\n\n    return flag_arr.reshape(original_shape)", "    flag_arr[diff.mask & ~inp.mask] = QartodFlags.GOOD\n    flag_arr[inp.mask] = QartodFlags.MISSING\n\n    return flag_arr.reshape(original_shape)", ["C09"]),
+    ("c02_density_missing_overflags", Q, "    flag_arr[1:][is_missing[:-1]] = QartodFlags.MISSING", "    flag_arr[1:][is_missing[:-1]] = QartodFlags.MISSING\n    flag_arr[:-1][is_missing[1:]] = QartodFlags.MISSING", ["C02", "C13"]),
+    ("c02_mask_dropped_regress_flat", Q, "        inp = np.ma.masked_invalid(np.ma.array(inp).astype(np.float64).filled(np.nan))\n\n    # Save original shape\n    original_shape = inp.shape\n    inp = inp.flatten()\n\n    # Start with everything as passing\n", "        inp = np.ma.masked_invalid(np.array(inp).astype(np.float64))\n\n    # Save original shape\n    original_shape = inp.shape\n    inp = inp.flatten()\n\n    # Start with everything as passing\n", ["C02", "C15"]),
+    ("c02_clim_missing_depth_matches", Q, "                & np.ma.filled(z_idx, fill_value=False).astype(bool)", "                & np.ma.filled(z_idx, fill_value=True).astype(bool)", ["C08"]),
 ]
